@@ -1038,7 +1038,7 @@ def main():
              ("dispatch", lambda: gen_dispatch(facts))]
     import importlib
     for modname in ("translate_more", "translate_feat", "translate_crate", "translate_utils", "translate_regs",
-                    "translate_kernels"):
+                    "translate_kernels", "translate_mem"):
         try:
             mod = importlib.import_module(modname)
         except ImportError:
